@@ -54,6 +54,12 @@ def r5_1(cx):
     t = table('unsafe_inventory')
     inv, impls = inventory(prog, CRATES)
     allowed = t['functions']
+    # a closure the table does not list is part of the body of the function it is written in: its operations are
+    # audited as that function's (`match x { Some(c) => unsafe {..} }` respelled `x.is_some_and(|c| unsafe {..})`)
+    for name in sorted(inv):
+        parent = re.sub(r'(::\{closure#\d+\})+$', '', name)
+        if parent != name and name not in allowed and parent in prog.by_name:
+            inv[parent] = sorted(set(inv.get(parent, [])) | set(inv.pop(name)))
     for name in sorted(set(inv) | set(allowed)):
         ops = inv.get(name, [])
         if name not in allowed:
@@ -369,7 +375,8 @@ def r5_8(cx):
     # (Anchor::is_same_chunk is read through: it is always inlined, see normalize.ALWAYS_INLINE)
     fam = [mr] + list(prog.closures_of(mr))
     same = [cs for g in fam for cs in g.calls() if cs.callee.endswith('ptr_eq')]
-    cx.check(okm and len(same) == 1, 'anchor-of-chunk', mr, None, 'a new Anchor clones the Arc of the chunk; an existing one is reused only if is_same_chunk',
+    # (one ptr_eq in the source: a closure spliced into its caller shows it twice)
+    cx.check(okm and len({cs.line for cs in same}) == 1, 'anchor-of-chunk', mr, None, 'a new Anchor clones the Arc of the chunk; an existing one is reused only if is_same_chunk',
              fail_detail='merge_ref_or_create does not tie the anchor to the allocating chunk')
     # an anchor's chunk is sticky: set at construction, never re-pointed (a parked zero-count anchor keeps the
     # chunk of the slices in front of it alive)
